@@ -145,7 +145,7 @@ def run(res, a):
     else:
         for i in range(6 if a.tier == "quick" else 60):
             k = rng.choice([1, 2, 3, 6])
-            eids = rng.sample([3, 7, 50, 1000], k) if rng.random() < 0.3 else [0] * k
+            eids = rng.sample([3, 7, 50, 1000, 12, 99, 2 ** 40, 2 ** 64 - 1], k) if rng.random() < 0.3 else [0] * k
             tc.append(";".join("%d:%s" % (e, ",".join(rng.choice(svcs) + rng.choice(["", "", "+h", "^2"]) for _ in range(rng.randrange(0, 4)))) for e in eids))
     lines, want = [], {}
     for i, spec in enumerate(tc):
